@@ -4,7 +4,8 @@
 //!   cells:  [ null | {"x":[..],"y":[..]} ]           cell k is named "c{k}"; null = a Cell without any view
 //!   nodes:  [ NODE ]                                  the pool of placeables; node id = index = pointer identity
 //!   runs:   [ {"instances":[ids], "places":[ids]} ]   each run builds a FRESH library (same pool, other listing);
-//!            optional per run: "wrap":n (n cells above the parent, each instantiating the one below), "sibling":"before"|"after"
+//!            optional per run: "wrap":n (n cells above the parent, each instantiating the one below), "sibling":"before"|"after",
+//!            "unlisted":true (with wrap > 0: the parent is not in lib.cells, only reachable through the wrappers)
 //!            (one more cell with a relative placement of its own, listed before / after the parent)
 //! NODE = {"k":"inst","cell":c,"loc":LOC,"rh":b,"rv":b}          Ptr<Instance>, named "i{id}"
 //!      | {"k":"array","arr":ARR,"loc":LOC,"rh":b,"rv":b}       Ptr<ArrayInstance>, named "a{id}"
@@ -264,6 +265,8 @@ fn one_run(case: &Value, run: &Value) -> Value {
             p.write().unwrap().layout = Some(parent);
             p
         }
+        // "unlisted": the parent is reached only through the cells that instantiate it (it is not in `lib.cells`)
+        None if run["unlisted"].as_bool().unwrap_or(false) && run["wrap"].as_u64().unwrap_or(0) > 0 => Ptr::new(Cell::from(parent)),
         None => lib.cells.add(parent),
     };
     // ---- optional: `wrap` cells above the parent, each instantiating the one below at an absolute location
@@ -309,6 +312,12 @@ fn one_run(case: &Value, run: &Value) -> Value {
                             all_abs = false;
                         }
                     }
+                }
+            }
+            // ... and so is the parent itself, also when it is not a listed cell
+            if let Some(l) = parent_ptr.read().unwrap().layout.as_ref() {
+                if l.places.len() != 0 || l.instances.iter().any(|ip| matches!(ip.read().unwrap().loc, Place::Rel(_))) {
+                    all_abs = false;
                 }
             }
             let sibling = match &sib_s1 {
